@@ -124,7 +124,12 @@ func (rl *TokenBucketRateLimiter) cleanup() {
 		b := value.(*bucket)
 
 		b.mutex.Lock()
-		shouldDelete := b.lastRefill.Before(cutoff)
+		// Forget a bucket only if that changes nothing for its client: idle for more than an
+		// hour AND refilled to the brim in that time (a new bucket starts full). With a slow
+		// refill an hour does not bring a spent bucket back, and forgetting it would hand the
+		// client a second full burst
+		refilled := b.tokens + int(now.Sub(b.lastRefill)/rl.refillRate)
+		shouldDelete := b.lastRefill.Before(cutoff) && refilled >= rl.maxTokens
 		if shouldDelete {
 			// Delete while holding the bucket lock and mark it, so a concurrent
 			// Allow that already holds a pointer to it notices and re-fetches
